@@ -482,8 +482,8 @@ func (r *Run) singleCaller(fi *prog.FuncInfo) *prog.FuncInfo {
 			}
 			break
 		}
-		if !isCall {
-			return nil
+		if !isCall && baselineFuncs()[fi.Name()] {
+			return nil // a value use of a function the tables know: reachable from anywhere the value flows
 		}
 		if only != nil && only != u.Scope.Fn {
 			return nil
